@@ -434,8 +434,13 @@ def long_flight(root, n_other=1100):
         ta = threading.Thread(target=call, args=("A", work, 7), daemon=True)
         ta.start()
         started.wait(20)
+        main_err = None
         for i in range(n_other):
-            other(1000 + i)
+            try:
+                other(1000 + i)
+            except Exception as e:      # an unrelated call on this thread fails because of the call in flight on the other
+                main_err = (i, type(e).__name__, str(e)[:200])
+                break
         tb = threading.Thread(target=call, args=("B", work, 7), daemon=True)
         tb.start()
         tb.join(0.5)
@@ -447,6 +452,8 @@ def long_flight(root, n_other=1100):
         go.set()
         m.Environment.set(prev)
     fails = []
+    if main_err is not None:
+        fails.append(dict(clause="no-internal-error", thread="main", got=main_err))
     if execs[7] != 1:
         fails.append(dict(clause="single-flight", arg=7, executions=execs[7], expected=1, other_invocations=n_other))
     for k in ("A", "B"):
